@@ -470,6 +470,9 @@ def cf_check(case):
     kc = kraus_catalogue(d)
     ka, kb = kc[case["a"]], kc[case["b"]]
     J1, J2 = choi_of([(K, K) for K in ka], d), choi_of([(K, K) for K in kb], d)
+    # natural dtypes: a Choi matrix without imaginary parts is passed as a real array, as a caller would build it (added after seeded
+    # change C20-12, which decided from the FIRST argument alone whether the SDP variable may be complex)
+    J1, J2 = (np.ascontiguousarray(J.real) if np.abs(J.imag).max() == 0 else J for J in (J1, J2))
     F, exc = call(channel_fidelity, J1, J2)
     if exc is not None:
         return viol(f"channel_fidelity raised for local dimension {d}: " + exc_text(exc), site=f"channel_fidelity:exception:d{d}")
